@@ -582,18 +582,18 @@ class Interp3DLagrange2(InterpAlgorithmFixed):
             dtype = x_vec.dtype
 
         if self.vec_coeff is None:
-            self.coeffs = set()
+            self._vec_cached = set()
             grid = self.grid
             self.vec_coeff = np.empty((nx, ny, nz, 3, 3, 3), dtype=dtype)
 
         needed = set(zip(i_x, i_y, i_z))
-        uncached = needed.difference(self.coeffs)
+        uncached = needed.difference(self._vec_cached)
         if len(uncached) > 0:
             unc = np.array(list(uncached))
             uncached_idx = (unc[:, 0], unc[:, 1], unc[:, 2])
             a = self.compute_coeffs_vectorized(uncached_idx, dtype)
             self.vec_coeff[unc[:, 0], unc[:, 1], unc[:, 2], ...] = a
-            self.coeffs.update(uncached)
+            self._vec_cached.update(uncached)
         a = self.vec_coeff[i_x, i_y, i_z, :]
 
         # Taking powers of the "deltas" instead of the actual table inputs eliminates numerical
@@ -1014,18 +1014,18 @@ class Interp2DLagrange2(InterpAlgorithmFixed):
             dtype = x_vec.dtype
 
         if self.vec_coeff is None:
-            self.coeffs = set()
+            self._vec_cached = set()
             grid = self.grid
             self.vec_coeff = np.empty((nx, ny, 3, 3), dtype=dtype)
 
         needed = set(zip(i_x, i_y))
-        uncached = needed.difference(self.coeffs)
+        uncached = needed.difference(self._vec_cached)
         if len(uncached) > 0:
             unc = np.array(list(uncached))
             uncached_idx = (unc[:, 0], unc[:, 1])
             a = self.compute_coeffs_vectorized(uncached_idx, dtype)
             self.vec_coeff[unc[:, 0], unc[:, 1], ...] = a
-            self.coeffs.update(uncached)
+            self._vec_cached.update(uncached)
         a = self.vec_coeff[i_x, i_y, :]
 
         # Taking powers of the "deltas" instead of the actual table inputs eliminates numerical
@@ -1366,17 +1366,17 @@ class Interp1DLagrange2(InterpAlgorithmFixed):
             dtype = x_vec.dtype
 
         if self.vec_coeff is None:
-            self.coeffs = set()
+            self._vec_cached = set()
             grid = self.grid
             self.vec_coeff = np.empty((nx, 3), dtype=dtype)
 
         needed = set(i_x)
-        uncached = needed.difference(self.coeffs)
+        uncached = needed.difference(self._vec_cached)
         if len(uncached) > 0:
             uncached_idx = np.array(list(uncached))
             a = self.compute_coeffs_vectorized(uncached_idx, dtype)
             self.vec_coeff[uncached_idx, ...] = a
-            self.coeffs.update(uncached)
+            self._vec_cached.update(uncached)
         a = self.vec_coeff[i_x, :]
 
         # Taking powers of the "deltas" instead of the actual table inputs eliminates numerical
